@@ -1007,7 +1007,12 @@ class HttpPayloadParser:
                     max_line_length = self._max_line_size
                     if self._chunk == ChunkState.PARSE_TRAILERS:
                         max_line_length = self._max_field_size
-                    if len(self._chunk_tail) > max_line_length:
+                    # A trailing CR may be the first half of the terminator
+                    # and is not part of the line.
+                    tail_len = len(self._chunk_tail)
+                    if self._chunk_tail.endswith(b"\r"):
+                        tail_len -= 1
+                    if tail_len > max_line_length:
                         raise LineTooLong(
                             self._chunk_tail[:100] + b"...", max_line_length
                         )
